@@ -13,6 +13,7 @@ import RV.Driver.Util
     trace0 N Na tp G soft                                         (m x y z)*N ks
     trace1 N tp G soft encN encNa          (m x y z)*N ks map*encN (ax ay az)*N
     tree   N shifted ngx ngy ngz G soft theta2 bsx bsy bsz        (m x y z)*N nroots cells…
+    treedata N                                                    (m x y z)*N nroots cells…  -> (m mx my mz) of every cell, preorder, after one refresh pass
   ks = one token of N*N characters '0'/'1' (current_Ks, row major);
   cells in preorder: `L pt remote m mx my mz` | `N w m mx my mz nkids` kids…
 -/
@@ -188,6 +189,17 @@ def step (toks : List String) : String :=
     | none => "bad-tree"
     | some roots =>
       outAcc (accTree (fun s => let r := sq s; (-g) / (r * r * r)) fgt (fl t[7]!) (fl t[8]!) gh roots (bodies t 12 n))
+  | "treedata" :: _ =>
+    if t.size < 3 then "bad-op" else
+    let n := nat t[1]!
+    if t.size < 3 + 4*n then "bad-op" else
+    let nroots := nat t[2 + 4*n]!
+    match parseRoots t nroots (3 + 4*n) with
+    | none => "bad-tree"
+    | some roots =>
+      let ps := bodies t 2 n
+      let out := cellDataLists (refreshCells (fun m => m > 0.0) ps roots)
+      " ".intercalate (out.map fun d => hxs [d.1, d.2.x, d.2.y, d.2.z])
   | _ => "bad-op"
 
 def main : IO Unit := runLines step
